@@ -47,8 +47,8 @@ def run():
     return rep
 
 
-def _rot_seq(n):
-    fs = [[z3.Function("rot_%d%d" % (i, j), z3.IntSort(), z3.IntSort()) for j in range(3)] for i in range(3)]
+def _rot_seq(n, prefix="rot"):
+    fs = [[z3.Function("%s_%d%d" % (prefix, i, j), z3.IntSort(), z3.IntSort()) for j in range(3)] for i in range(3)]
 
     def at(k):
         a = np.empty((3, 3), dtype=object)
@@ -87,9 +87,18 @@ def _test(rep):
     HALL = object()
 
     def ds_contract(it, st, bound, site):
+        # the operations reported for the given cell: some sub-list of the group's operations that depends on the cell in which the crystal
+        # is presented (in a supercell whose lattice is not invariant under the whole point group the others are missing) - A-SPG says nothing
+        # more about them, so they are an unrelated sequence of unimodular matrices here
+        n2 = sint("n_ops_of_the_given_cell")
+        st.assume(n2.t >= 1)
+        seq2, fs2 = _rot_seq(n2, "cellrot")
+        q2 = z3.Int("q2")
+        st.assume(z3.ForAll([q2], z3.Implies(z3.And(q2 >= 0, q2 < n2.t), z3.Or(_detZ(fs2, q2) == 1, _detZ(fs2, q2) == -1))))
+
         class DS:
             hall_number = HALL
-            rotations = None  # the operations reported for the given cell are not what chirality is derived from (supercells)
+            rotations = seq2
             translations = None
 
         return DS
@@ -156,6 +165,27 @@ def replay(ob):
     w = ob.witness or {}
     if "sg" in w:
         groups = [w["sg"]] + groups
+    # supercells whose lattice is not invariant under the whole point group (the operations spglib lists for such a cell are a sub-list)
+    from ase.build import make_supercell
+    for sg in ([w["sg"]] if "sg" in w else []) + [81, 6, 111, 156, 174, 75, 143, 25]:
+        base = tr.pinned_probe(sg, npin=1)
+        want = tabvc.is_sohncke(sg)
+        for P in ([[2, 0, 0], [0, 1, 0], [0, 0, 1]], [[1, 0, 0], [0, 2, 0], [0, 0, 1]], [[1, 0, 0], [0, 3, 0], [0, 1, 1]], [[1, 0, 0], [0, 1, 0], [0, 0, 2]], [[2, 1, 0], [0, 1, 0], [0, 0, 1]]):
+            try:
+                at = make_supercell(base, P)
+                if len(at) > 260:
+                    continue
+                a = tr.analyze(at)
+                if int(a.get_space_group_number()) != sg:
+                    continue
+                got = bool(a.get_is_chiral())
+            except Exception as e:  # noqa
+                bad.append((sg, P, "%s: %s" % (type(e).__name__, e)))
+                continue
+            if got != want:
+                bad.append({"sg": sg, "supercell": P, "get_is_chiral": got, "sohncke": want})
+        if len(bad) >= 3:
+            return {"reproduced": True, "failing_inputs": bad[:3]}
     for sg in groups:
         at0 = tr.pinned_probe(sg, npin=2)
         want = tabvc.is_sohncke(sg)
